@@ -6,9 +6,13 @@
    condition of the property text: index, reception time, ECU, payload bytes, lifecycle and the standard
    header are kept, an existing extended header is kept (a missing one may be filled in), the timestamp
    is kept unless [allow_ts] (rewrite plugin); only payload_text is free.
-   The hypothesis [Conservative] for the five real decoders (non-verbose, SOME/IP, CAN, Muniic, rewrite) is
-   NOT proved — their FIBEX/JSON driven decoding is outside the model; it is checked message by message by
-   the harness (harness/src/bin/c19.rs, "frame" cases) on the real plugins.
+   The hypothesis [Conservative] is PROVED for the process_msg wrappers of the five real decoders
+   (Plugins/Decoders.v: which fields are written under which condition, transcribed from the Rust control
+   flow) for EVERY behaviour of the FIBEX/JSON/regex driven decoding, which stays abstract (an arbitrary
+   "answer" function); what remains trusted is that the decoding functions themselves (afibex/asomeip,
+   process_msg_arg_iter, Filter::matches, fancy-regex) do not write to the message — they only get `&DltMessage`
+   or slices — and the harness checks the frame condition message by message on the real plugins
+   ("frame" cases) and that the wrapper models reproduce the real plugins' written fields ("dec" cases).
 
    Part 2 (Plugins/Anon.v): AnonymizePlugin modelled completely (pseudonym tables, control-message and
    payload rewriting, the argument iterator's first step).
@@ -20,7 +24,7 @@
    capacity.  The real detector is additionally run on original vs anonymised streams by the harness
    ("equiv" cases). *)
 From Coq Require Import List NArith Bool.
-From AdltV Require Import Base.Res Base.MachInt Plugins.Chain Plugins.ChainProofs Plugins.Anon Plugins.AnonProofs Plugins.AnonLc Exec.C19.
+From AdltV Require Import Base.Res Base.MachInt Plugins.Chain Plugins.ChainProofs Plugins.Anon Plugins.AnonProofs Plugins.AnonLc Plugins.Decoders Plugins.DecodersProofs Exec.C19.
 From AdltV Require Lifecycle.Model Plugins.LcEquiv.
 Import ListNotations.
 Open Scope N_scope.
@@ -132,6 +136,57 @@ Example C19_chain_drop_example :
   let ms := [M 0 0 1 0 49 0 0 None [] None 0; M 1 0 1 0 49 0 0 None [] None 0; M 2 0 1 0 49 0 0 None [] None 0] in
   map m_index (snd (process ps ms)) = [0; 2] /\ map m_text (snd (process ps ms)) = [Some [49; 33]; Some [49; 34]].
 Proof. vm_compute. split; reflexivity. Qed.
+
+(* ------------------------------------------------------------------ Part 1b: the five real decoders *)
+
+(* every wrapper returns true and stays inside the frame (the four decoders without, rewrite with the timestamp
+   licence) whatever the abstract decoding answers *)
+Theorem C19_decoder_wrappers_in_frame :
+  (forall enabled ans m, snd (nv_wrap enabled ans m) = true /\ frame false m (fst (nv_wrap enabled ans m))) /\
+  (forall ans m, snd (someip_wrap ans m) = true /\ frame false m (fst (someip_wrap ans m))) /\
+  (forall ans m, snd (can_wrap ans m) = true /\ frame false m (fst (can_wrap ans m))) /\
+  (forall ans m, snd (muniic_wrap ans m) = true /\ frame false m (fst (muniic_wrap ans m))) /\
+  (forall enabled acts m, snd (rewrite_wrap enabled acts m) = true /\ frame true m (fst (rewrite_wrap enabled acts m))) /\
+  (forall enabled acts m, Forall (fun x => match x with RwText _ => True | RwTs _ => False end) acts ->
+                          frame false m (fst (rewrite_wrap enabled acts m))).
+Proof.
+  split; [intros; apply nv_wrap_ok|]. split; [intros; apply someip_wrap_ok|]. split; [intros; apply can_wrap_ok|].
+  split; [intros; apply muniic_wrap_ok|]. split; [intros; apply rewrite_wrap_ok|].
+  intros enabled acts m H. exact (proj2 (rewrite_wrap_text_only enabled acts m H)).
+Qed.
+
+(* hence each of the five plugins — any plugin state, any state transition, any decoding behaviour — is Conservative *)
+Theorem C19_real_decoder_conservative allow_ts p : real_decoder allow_ts p -> Conservative allow_ts p.
+Proof. exact (real_decoder_conservative allow_ts p). Qed.
+
+(* and any chain of them (any subset, order, multiplicity) forwards every message of every stream exactly once,
+   in order, inside the frame; without a rewrite plugin ([allow_ts = false]) the timestamp is intact as well *)
+Theorem C19_real_decoders_conservative allow_ts ps ms :
+  Forall (real_decoder allow_ts) ps ->
+  exists ps' outs, process ps ms = (ps', outs) /\ Forall2 (frame allow_ts) ms outs /\ Forall (Conservative allow_ts) ps'.
+Proof. exact (real_decoders_chain allow_ts ps ms). Qed.
+
+(* the plugins the correspondence check runs (answers scripted from the observed real run) are instances *)
+Theorem C19_checked_decoders_are_instances chain : Forall (real_decoder true) (map dec_plugin chain).
+Proof.
+  apply Forall_forall. intros p Hp. apply in_map_iff in Hp. destruct Hp as [d [E _]]. subst p.
+  destruct d; cbn; constructor.
+Qed.
+
+(* non-vacuity / what the wrappers do: the non-verbose plugin installs the described header only when the
+   message has none, keeps an existing one, and leaves verbose messages alone; CAN keeps an existing text on a
+   decoding error; rewrite moves the timestamp *)
+Example C19_decoders_nonvacuous :
+  let h := EH 64 0 1212957696 1296123214 in
+  let nv := DNv true [NvFrame [70] (Some h); NvFrame [71] (Some h); NvFrame [72] (Some h)] in
+  let can := DCan [CanErr [1]; CanErr [2]; CanOk [3]] in
+  let rw := DRewrite true [[]; [RwText (Some [9]); RwTs 77]; []] in
+  let ms := [M 0 10 1 5 48 0 0 None [1; 2; 3; 4] None 0;
+             M 1 11 1 6 49 0 0 (Some (64, 0, 7, 8)) [1; 2; 3; 4; 5] (Some [88]) 2;
+             M 2 12 1 7 49 0 0 (Some (37, 2, 7, ctid_TC)) [1; 2; 3; 4] (Some [88]) 0] in
+  map (fun m => (m_ext m, m_text m, m_ts m)) (snd (process (map dec_plugin [nv; can; rw]) ms)) =
+  [(Some h, Some [70], 5); (Some (EH 64 0 7 8), Some [9], 77); (Some (EH 37 2 7 ctid_TC), Some [3], 7)].
+Proof. vm_compute. reflexivity. Qed.
 
 (* ------------------------------------------------------------------ Part 2: the anonymiser *)
 
@@ -321,3 +376,8 @@ Print Assumptions C19_renaming_meaning.
 Print Assumptions C19_lifecycles_equivariant.
 Print Assumptions C19_lifecycles_same_boundaries.
 Print Assumptions C19_lifecycles_nonvacuous.
+Print Assumptions C19_decoder_wrappers_in_frame.
+Print Assumptions C19_real_decoder_conservative.
+Print Assumptions C19_real_decoders_conservative.
+Print Assumptions C19_checked_decoders_are_instances.
+Print Assumptions C19_decoders_nonvacuous.
